@@ -8,6 +8,7 @@ import (
 
 	"github.com/btcsuite/btcd/blockchain"
 	"github.com/btcsuite/btcd/btcutil/v2"
+	"github.com/btcsuite/btcd/wire/v2"
 
 	"verif/harness/simkit"
 )
@@ -44,9 +45,15 @@ type Sim struct {
 	preKnown map[*MBlock]bool
 	stuck    *MBlock
 
+	// blocks the node certainly marked invalid when an ancestor (or the block
+	// itself) was invalidated: every indexed descendant when the invalidated
+	// block was on a side chain, the main-chain descendants when it was active
+	markedInvalid map[*MBlock]bool
+
 	hdr     *hdrState // headers-first model of the current node instance
 	everInv bool      // InvalidateBlock was used in this run
 
+	heavySigops         bool // buildPoolTx produces sigop-heavy transactions
 	ps                  *poolState
 	reorgSincePoolEmpty bool // a reorganisation happened while the pool was not empty
 }
@@ -161,7 +168,14 @@ func (s *Sim) Deliver(b *MBlock) {
 		r.Probe("invalid-judged:" + b.Class)
 	case b.ChainValid() && !s.excluded(b):
 		if err != nil && !(isRule(err) && badOrphanBelow) {
-			r.Violate("C01", "valid-accepted", "", "valid block %v (mut=%q) on a valid chain rejected: %v", b, b.Mut, err)
+			detail := ""
+			if len(b.Txs) > 0 && b.Parent.View != nil {
+				for i, o := range b.Txs[0].Msg.TxOut {
+					_, in := b.Parent.View[wire.OutPoint{Hash: b.Txs[0].Msg.TxHash(), Index: uint32(i)}]
+					detail += fmt.Sprintf(" [cb out %d: %d sat script %x inParentView=%v]", i, o.Value, o.PkScript, in)
+				}
+			}
+			r.Violate("C01", "valid-accepted", "", "valid block %v (mut=%q) on a valid chain rejected: %v%s", b, b.Mut, err, detail)
 		}
 		if b.Mut != "" {
 			r.Probe("at-limit-accepted:" + b.Mut)
